@@ -30,6 +30,8 @@ func c13(c *Ctx) {
 	c13R4(c)
 	c13R5(c)
 	c13R6(c)
+	c13R8(c, gens)
+	c13R9(c)
 	itemIndependent(c, "C13.R7", [][3]string{{"daemon", "ruleSync", "one rule set per pod interface"}})
 }
 
@@ -668,4 +670,179 @@ func c13R6(c *Ctx) {
 		return
 	}
 	c.Check(constant.Compare(a.Val(), token.LSS, b.Val()), "C13.R6", "toContainerPriority < fromContainerPriority", "", datapathPkg, a.Val().String()+" < "+b.Val().String(), "order reversed")
+}
+
+// R8: a generated configuration is applied, not skipped. Where a datapath binds
+// the result of a configuration generator and hands it to nic.Setup, it does so
+// on every path that goes on to report success: no "already configured" fast
+// path decides, from a partial look at the link, that the addresses, routes,
+// rules and sysctls of this pod's families need not be (re)applied. nic.Setup
+// is itself idempotent (ensure-semantics), which is what makes sharing an
+// interface between pods safe.
+func c13R8(c *Ctx, gens []*FuncInfo) {
+	p := c.P
+	c.Rule("C13.R8", "every configuration a datapath generates for Setup is applied: on every path from the generator call to a success return, nic.Setup is called with that configuration (no state-dependent fast path skips part of a pod's families)")
+	isGen := map[*types.Func]bool{}
+	for _, g := range gens {
+		isGen[g.Obj] = true
+	}
+	setup := p.Func("plugin/driver/nic", "Setup")
+	if setup == nil {
+		c.Unres("C13.R8", "nic.Setup", "not found")
+		return
+	}
+	n := 0
+	for _, fn := range p.FuncsInPkg(datapathPkg) {
+		if isGen[fn.Obj] {
+			continue
+		}
+		info := fn.Info()
+		for _, cs := range p.CallsIn(fn) {
+			if cs.Callee == nil || !isGen[cs.Callee] {
+				continue
+			}
+			_, lhs := assignedFromCall(fn, cs.Call)
+			if len(lhs) != 1 || lhs[0] == nil {
+				continue // passed on directly
+			}
+			v := lhs[0]
+			applies := func(k ast.Node) bool {
+				found := false
+				ast.Inspect(k, func(m ast.Node) bool {
+					if call, ok := m.(*ast.CallExpr); ok && Callee(info, call) == setup.Obj && len(call.Args) == 3 && identObj(info, call.Args[2]) == v {
+						found = true
+					}
+					return !found
+				})
+				return found
+			}
+			var body *ast.BlockStmt = fn.Decl.Body
+			sig := fn.Obj.Type().(*types.Signature)
+			if cs.Lit != nil {
+				body = cs.Lit.Body
+				sig, _ = info.TypeOf(cs.Lit).(*types.Signature)
+			}
+			if !applies(body) {
+				continue // generated for Check / Teardown
+			}
+			n++
+			q := NewPathQuery(p, fn, body)
+			w := q.Escapes(isExactly(cs.Call), nil, applies, func(ret *ast.ReturnStmt) bool {
+				if sig == nil {
+					return false
+				}
+				ok, known := isSuccessReturn(info, sig, ret)
+				return known && !ok
+			})
+			c.Check(w == nil, "C13.R8", fn.Name+": "+v.Name()+" = "+cs.Callee.Name()+"(…) is applied on every successful path", p.Pos(cs.Call), fn.Key(),
+				"must-pass: generator → nic.Setup(…, "+v.Name()+") → success return", "path: "+p.describePath(w))
+		}
+	}
+	c.Floor("C13.R8", "generated configurations handed to nic.Setup", 6, n)
+}
+
+// R9: the collector of leaked host routes and the live set it is given cover
+// the same families. gcRoutes deletes every route of the listed families whose
+// destination is not in the live set, so a family it lists but gcPods never
+// inserts would lose the routes of every live pod.
+func c13R9(c *Ctx) {
+	p := c.P
+	c.Rule("C13.R9", "daemon route GC: the address families gcRoutes lists (netlink.RouteList family argument) are families whose live pod addresses gcPods inserts into the live set handed down to it — a route is deleted only for being absent from a set that could have contained it")
+	gcr := p.Func(daemonPkg, "gcRoutes")
+	gcp := p.Func(daemonPkg, "networkService.gcPods")
+	if gcr == nil || gcp == nil {
+		c.Unres("C13.R9", "gcRoutes / gcPods", "not found")
+		return
+	}
+	info := gcr.Info()
+	listed := map[string]bool{}
+	n := 0
+	for _, cs := range p.CallsIn(gcr) {
+		if cs.Callee == nil || cs.Callee.Pkg() == nil || !strings.HasSuffix(cs.Callee.Pkg().Path(), "vishvananda/netlink") || !strings.HasPrefix(cs.Callee.Name(), "RouteList") || len(cs.Call.Args) < 2 {
+			continue
+		}
+		n++
+		fam := cs.Call.Args[1]
+		if cs.Callee.Name() == "RouteListFiltered" {
+			fam = cs.Call.Args[0]
+		}
+		v, isC := constInt(info, fam)
+		switch {
+		case !isC:
+			c.Undec("C13.R9", "gcRoutes: family listed", p.Pos(cs.Call), gcr.Key(), "a constant family", exprString(fam))
+		case v == 2:
+			listed["IPv4"] = true
+		case v == 10:
+			listed["IPv6"] = true
+		default:
+			listed["IPv4"], listed["IPv6"] = true, true
+		}
+	}
+	c.Floor("C13.R9", "route listings in gcRoutes", 1, n)
+	// the live set: the variable gcPods passes down (directly or through gcLeakedRules)
+	ginfo := gcp.Info()
+	live := map[string]bool{}
+	var setVar types.Object
+	for _, cs := range p.CallsIn(gcp) {
+		if cs.Callee == nil {
+			continue
+		}
+		if cf := p.FuncOf(cs.Callee); cf != nil && (cf == gcr || callsFunc(p, cf, gcr.Obj)) {
+			for _, a := range cs.Call.Args {
+				if o := identObj(ginfo, a); o != nil && strings.Contains(o.Type().String(), "sets.Set") {
+					setVar = o
+				}
+			}
+		}
+	}
+	if setVar == nil {
+		c.Undec("C13.R9", "gcPods: the live set handed to the route GC", p.Pos(gcp.Decl), gcp.Key(), "a sets.Set variable passed to gcLeakedRules / gcRoutes", "not found")
+		return
+	}
+	ins := 0
+	for _, cs := range p.CallsIn(gcp) {
+		sel, ok := ast.Unparen(cs.Call.Fun).(*ast.SelectorExpr)
+		if !ok || sel.Sel.Name != "Insert" || identObj(ginfo, sel.X) != setVar {
+			continue
+		}
+		ins++
+		for _, a := range cs.Call.Args {
+			ast.Inspect(a, func(k ast.Node) bool {
+				if s, ok := k.(*ast.SelectorExpr); ok {
+					if fv, _ := ginfo.ObjectOf(s.Sel).(*types.Var); fv != nil && fv.IsField() && (fv.Name() == "IPv4" || fv.Name() == "IPv6") {
+						live[fv.Name()] = true
+					}
+				}
+				return true
+			})
+		}
+	}
+	c.Floor("C13.R9", "insertions into the live set in gcPods", 1, ins)
+	for _, fam := range []string{"IPv4", "IPv6"} {
+		if !listed[fam] {
+			continue
+		}
+		c.Check(live[fam], "C13.R9", "gcRoutes lists "+fam+" routes and the live set holds "+fam+" addresses", p.Pos(gcr.Decl), gcr.Key(),
+			"families listed ⊆ families inserted by gcPods", fmt.Sprintf("listed=%v live=%v", trueKeys(listed), trueKeys(live)))
+	}
+}
+
+func callsFunc(p *Prog, fn *FuncInfo, target *types.Func) bool {
+	for _, cs := range p.CallsIn(fn) {
+		if cs.Callee == target {
+			return true
+		}
+	}
+	return false
+}
+
+func trueKeys(m map[string]bool) []string {
+	var out []string
+	for k, v := range m {
+		if v {
+			out = append(out, k)
+		}
+	}
+	sort.Strings(out)
+	return out
 }
